@@ -322,19 +322,28 @@ func checkCompareCore(c *Check, w *World, tb *TB, pfx string, entry *ssa.Functio
 		} else {
 			c.OK(pfx+".6", fn, "compared-expected", "the expected side is the whole string returned by the shared derivation for this step", w.InstrPos(h.Call))
 		}
-		// result tested == 1, true edge returns (true,nil)
+		// acceptance (return true) only where the comparison result is known to equal 1
 		cv := h.Call.Value()
-		okEq := false
-		if cv != nil && cv.Referrers() != nil {
-			for _, r := range *cv.Referrers() {
-				if bo, ok := r.(*ssa.BinOp); ok && bo.Op == token.EQL {
-					if k, ok := constInt(bo.Y); ok && k.Int64() == 1 {
-						okEq = true
+		okEq, nAcc := true, 0
+		for _, r := range Returns(h.Fn) {
+			k, ok := r.Results[0].(*ssa.Const)
+			if !ok || k.Value == nil || k.Value.String() != "true" {
+				continue
+			}
+			nAcc++
+			found := false
+			for _, at := range atomsOf(CondsAt(r.Block())) {
+				if at.X == cv && at.Op == token.EQL {
+					if kk, ok := constInt(at.Y); ok && kk.Int64() == 1 {
+						found = true
 					}
 				}
 			}
+			if !found {
+				okEq = false
+			}
 		}
-		c.Decide(okEq, pfx+".6", fn, "compare-result", "acceptance requires ConstantTimeCompare == 1", "the comparison result is not tested with == 1", w.InstrPos(h.Call))
+		c.Decide(okEq && nAcc > 0, pfx+".6", fn, "compare-result", "acceptance only where ConstantTimeCompare(...) == 1 holds", "a 'true' verdict is returned where the comparison result is not known to be 1 (or never)", w.InstrPos(h.Call))
 		// the length test in the comparing function
 		cf := h.Fn
 		okLen := false
